@@ -41,6 +41,28 @@ Proof.
   intros st st' Hw H. rewrite (step_roundtrip s mark_names node_names text_name text_in_range st Hw) in H.
   inversion H; subst. auto.
 Qed.
+
+(* lossless means injective: two well-formed values with the same JSON are the same value *)
+Corollary C05_node_json_injective : forall n1 n2, node_wf s n1 -> node_wf s n2 ->
+  node_to_json s n1 = node_to_json s n2 -> n1 = n2.
+Proof.
+  intros n1 n2 H1 H2 E. pose proof (C05_node_roundtrip n1 H1) as R1. pose proof (C05_node_roundtrip n2 H2) as R2.
+  rewrite E in R1. rewrite R1 in R2. inversion R2. reflexivity.
+Qed.
+
+Corollary C05_slice_json_injective : forall a b, slice_wf s a -> slice_wf s b ->
+  slice_to_json s a = slice_to_json s b -> a = b.
+Proof.
+  intros a b H1 H2 E. pose proof (C05_slice_roundtrip a H1) as R1. pose proof (C05_slice_roundtrip b H2) as R2.
+  rewrite E in R1. rewrite R1 in R2. inversion R2. reflexivity.
+Qed.
+
+Corollary C05_step_json_injective : forall a b, step_wf s a -> step_wf s b ->
+  step_to_json s a = step_to_json s b -> a = b.
+Proof.
+  intros a b H1 H2 E. pose proof (C05_step_roundtrip a H1) as R1. pose proof (C05_step_roundtrip b H2) as R2.
+  rewrite E in R1. rewrite R1 in R2. inversion R2. reflexivity.
+Qed.
 End S.
 
 Print Assumptions C05_mark_roundtrip.
@@ -49,3 +71,6 @@ Print Assumptions C05_fragment_roundtrip.
 Print Assumptions C05_slice_roundtrip.
 Print Assumptions C05_step_roundtrip.
 Print Assumptions C05_step_same_effect.
+Print Assumptions C05_node_json_injective.
+Print Assumptions C05_slice_json_injective.
+Print Assumptions C05_step_json_injective.
